@@ -84,7 +84,7 @@ def stamp_tie(ck, seed, n):
 def main(tier, seed):
     ck = Check("C08", tier, seed)
     b = ck.build_proofs("Prop_C08", extra_targets=["Run.vo"])
-    n = 56 if tier == "quick" else 400
+    n = 64 if tier == "quick" else 400
 
     def worker(z):
         env = dict(os.environ, **impl_env(z), C08_WORK=str(ck.work / "w"), VERIF_REPO=str(REPO))
